@@ -18,7 +18,7 @@ func init() {
 		LevelText:   "Structural clauses decided: in non-test, non-bench module code only telemetry.sendTelemetry makes HTTP requests and only to the constant endpoint; it is reached only through Start's go statement behind the Enabled test, and the collector is created/started only behind Config.Telemetry.Enabled; the payload's transitive JSON key set equals the documented one and every value derives from runtime.*, the instance id, the version or the clock; the telemetry package cannot import server state; each route to 'disabled' (file, programmatic, environment) is wired. What dependencies do on the network is not decided.",
 		LevelNote:   "Trusted: go/types, go/ssa, encoding/json's struct-tag semantics, viper's environment binding rules (prefix + key replacer).",
 		DesignRef:   "DESIGN.md §4 C19",
-		Explanation: "R19.5 also (round 8): the switch is left at its default only when the key telemetry.enabled itself is absent. R19.5 also: the telemetry section is read key by key. R19.5 also: environment variables are bound per known key (no AutomaticEnv), so a variable named after a section cannot hide telemetry.enabled from the file (F74). R19.1 egress ownership, R19.2 gating, R19.3 payload whitelist and provenance (instance id random or read back from the id file; no host / user / environment identity source in the package), R19.4 layering, R19.5 routes to disabled (file key agreement = R15.6, programmatic, environment). R19.5 also requires that the switch is written only where defaults are built and the configuration is read; R15.8 (shared) telemetry.* keys reach their Config fields. NOT decided: network behaviour of dependencies (NATS, Raft, gRPC are the product).",
+		Explanation: "R19.3 also (round 9): the collector's instance id is the id file's. R19.5 also (round 8): the switch is left at its default only when the key telemetry.enabled itself is absent. R19.5 also: the telemetry section is read key by key. R19.5 also: environment variables are bound per known key (no AutomaticEnv), so a variable named after a section cannot hide telemetry.enabled from the file (F74). R19.1 egress ownership, R19.2 gating, R19.3 payload whitelist and provenance (instance id random or read back from the id file; no host / user / environment identity source in the package), R19.4 layering, R19.5 routes to disabled (file key agreement = R15.6, programmatic, environment). R19.5 also requires that the switch is written only where defaults are built and the configuration is read; R15.8 (shared) telemetry.* keys reach their Config fields. NOT decided: network behaviour of dependencies (NATS, Raft, gRPC are the product).",
 	})
 }
 
